@@ -3,6 +3,7 @@ the Python type / attribute objects (evaluated at the given parameter vectors) a
 of Model.variable_metadata_function at the same vectors."""
 import math
 import os
+import shutil
 import tempfile
 
 from vlib.core import child_main
@@ -120,11 +121,14 @@ def handler(case):
         opts = dict(case.get("opts") or {})
         if case.get("via") == "transfer":
             from pymoca.backends.casadi.api import transfer_model
-            d = tempfile.mkdtemp(prefix="c13_")
-            with open(os.path.join(d, "M.mo"), "w") as f:
-                f.write(case["text"])
-            opts["cache"] = False
-            m = transfer_model(d, "M", opts)
+            d = tempfile.mkdtemp(prefix="c13_", dir=os.getcwd())   # the harness' per-run scratch directory
+            try:
+                with open(os.path.join(d, "M.mo"), "w") as f:
+                    f.write(case["text"])
+                opts["cache"] = False
+                m = transfer_model(d, "M", opts)
+            finally:
+                shutil.rmtree(d, ignore_errors=True)
         else:
             m = gen.generate(parser.parse(case["text"]), "M", opts)
 
